@@ -368,6 +368,8 @@ def obligations(tier):
                 continue
             names = [nm for nm, _ in refs.unitary_library(dd)]
             for m in ([0] if typ in ("state", "gate") else tiers(tier, [2], [2, 3])):
+                if tier == "quick" and typ == "povm" and s == "T1":
+                    continue
                 for vn in (names[-1:] if tier == "quick" else names):
                     out += specs("C04.ineq", [{"typ": typ, "sys": s, "m": m, "vname": vn}], ob_ineq, 5)
                 if dd <= 4:
